@@ -59,7 +59,9 @@ TReset ==
   /\ IsEvent("Reset")
   /\ l' = l + 1
   /\ run' = E.run
-  /\ LET ok == E.fam = "counter" /\ ~("aborted" \in DOMAIN E) /\ W(E.start) >= 0 /\ E.dpanic = 0 IN
+  /\ LET ok == E.fam = "counter" /\ ~("aborted" \in DOMAIN E) /\ W(E.start) >= 0 /\ E.dpanic = 0
+                /\ E.cpanic = 0
+                /\ E.kind \notin {"vec_zst", "array_zst", "vec_h"} IN     \* zero-sized / boxed elements: other ledger
      /\ ign' = ~ok
      /\ IF ok THEN ResetWith(CfgOfRun(E)) /\ expv' = [t \in 0..E.threads |-> << >>]
         ELSE UNCHANGED <<vars, expv>>
